@@ -16,4 +16,16 @@ LockOrder1 == LA(1)!OrderKept
 LockInv == \A l \in AllLocks : LA(l)!FreeWhenUnused /\ LA(l)!OwnerNotQueued /\ LA(l)!NoDup
 \* (the read mutex of queue 1 is lock NLocks + 1)
 MutexRefines1 == LA(NLocks + 1)!Spec
+
+\* Queue 1 implements the abstract queue QueueAbs: the receivers are the owner of the read mutex followed by the
+\* activities waiting for it; `got` is a ghost field of the model (the item handed out last).  (Claimed for
+\* configurations with one queue and no channel: items are numbered by one counter.)
+RecvOf(q) == LET m == Mutex(q) IN IF lock[m].owner = 0 THEN <<>> ELSE <<lock[m].owner>> \o QueueOf(m)
+QA(q) == INSTANCE QueueAbs WITH Procs <- Acts, buf <- obj.q[q].buf, closed <- obj.q[q].closed, recv <- RecvOf(q),
+                                nput <- cnt.item, last <- obj.q[q].got
+QueueRefines1 == QA(1)!Spec
+QueueHead1 == QA(1)!HeadOnly
+QueueOrder1 == QA(1)!RecvOrder
+QueueClosed1 == QA(1)!ClosedForGood
+QueueInv == QA(1)!Exact /\ QA(1)!NoDupRecv
 =============================================================================
